@@ -52,7 +52,7 @@ func vh_lease_step() {
 	vMakeLeader(r, "a", selfIdx)
 	cfg := r.conf.Load().(Config)
 	lease := time.Duration(vI64("lease"))
-	vAssume(lease >= 5*time.Millisecond && lease < time.Duration(1)<<56)
+	vAssume(lease >= 5*time.Millisecond && lease < time.Duration(1)<<42) // up to ~73 minutes
 	cfg.LeaderLeaseTimeout = lease
 	r.conf.Store(cfg)
 	servers := r.configurations.latest.Servers
@@ -109,8 +109,8 @@ func vh_lease_step() {
 		f := r.leaderState.replState[s.ID]
 		lc := vTimeNs(f.lastContact)
 		counted := vAnd(s.Suffrage == Voter, checkNow-lc <= int64(lease))
-		bound := int64(vIte64(lc+int64(lease) > checkNow+int64(minCheckInterval), uint64(lc+int64(lease)), uint64(checkNow+int64(minCheckInterval))))
-		vAssert(vImplies(counted, due <= bound), "C13.lease.next-check-before-expiry")
+		vAssert(vImplies(counted, int64(maxDiff) >= checkNow-lc), "C13.lease.maxdiff-dominates-counted-voters")
+		vAssert(vImplies(counted, vOr(due <= lc+int64(lease), due <= checkNow+int64(minCheckInterval))), "C13.lease.next-check-before-expiry")
 	}
 	vReach("lease.end")
 }
@@ -142,7 +142,8 @@ func vh_verify_count() {
 	}
 	// acknowledgements: every peer either acknowledges (success/failure) or stays silent
 	nAck := 0
-	negative := false
+	negative := false    // a voter refused before the future was decided
+	negativeAny := false // any peer refused (a non-voter's refusal may or may not be heeded)
 	decided := false
 	for i, s := range servers {
 		if i == selfIdx {
@@ -160,7 +161,10 @@ func vh_verify_count() {
 		case 2:
 			repl := r.leaderState.replState[s.ID]
 			if !decided {
-				negative = true
+				negativeAny = true
+				if s.Suffrage == Voter {
+					negative = true
+				}
 			}
 			repl.notifyAll(false)
 		}
@@ -180,7 +184,7 @@ func vh_verify_count() {
 			vCover("verify.failed")
 			vAssert(err == ErrNotLeader, "C09.verify.fails-with-not-leader")
 			vAssert(r.getState() == Follower, "C09.verify.negative-ack-steps-down")
-			vAssert(negative, "C09.verify.fail-only-on-negative-ack")
+			vAssert(negativeAny, "C09.verify.fail-only-on-negative-ack")
 		}
 		_, still := r.leaderState.notify[v]
 		vAssert(!still, "C09.verify.cleaned")
